@@ -36,6 +36,7 @@ EXTENDS TimeWheelObs, TLC, Json, SequencesExt
 CONSTANTS NAdders,     \* producers are named p1..pN; the entry of producer p is named p
           DueSet,      \* due times a producer may ask for
           RetrySets,   \* sets of producers whose first attempt fails temporarily (retry once)
+          PanicSets,   \* sets of producers whose first attempt panics inside the target
           RetryDelay,
           CloseSet,    \* {TRUE}, {FALSE} or BOOLEAN: scenarios with / without shutdown
           ParSet,      \* capacities of the delivery semaphore
@@ -72,7 +73,7 @@ schedV == <<hist, cur, delays>>
 vars == <<cfg, now, wheelV, apc, cpc, tickV, workV, queueV, ended, obs, schedV>>
 View == <<cfg, now, wheelV, apc, cpc, tickV, workV, queueV, ended, obs>>
 
-Cfgs == [due : [Adders -> DueSet], close : CloseSet, retry : RetrySets, par : ParSet, hdr : {{}}]
+Cfgs == [due : [Adders -> DueSet], close : CloseSet, retry : RetrySets, par : ParSet, hdr : {{}}, panic : PanicSets]
 
 InitWith(c) ==
   /\ cfg = c /\ now = 0
@@ -239,6 +240,11 @@ Attempt(e) ==
      THEN \* the header cannot be opened right now (EMFILE, ELOOP, ...): the attempt is given up,
           \* the message stays in the spool for the next start
           wpc' = [wpc EXCEPT ![e] = "w5"] /\ UNCHANGED <<wdue, spool, obs>>
+     ELSE IF e \in Adders /\ e \in cfg.panic
+     THEN \* the target panics: the deferred function releases the slot, calls Done, recovers and
+          \* renames the message to .meta_broken (W5, W6)
+          /\ obs' = ObsAttemptPanic(ObsDispatch(obs, e, now), m)
+          /\ wpc' = [wpc EXCEPT ![e] = "w5p"] /\ UNCHANGED <<wdue, spool>>
      ELSE
      /\ obs' = LET o1 == ObsDispatch(obs, e, now)
                IN IF retry THEN ObsSched(o1, R(e), now + RetryDelay) ELSE ObsTerminal(o1, m)
@@ -276,18 +282,19 @@ Wa3(e) == /\ wpc[e] = "wa3"
           /\ UNCHANGED <<cfg, now, wheelV, apc, cpc, wdue, queueV, ended, obs>>
 
 \* deferred: <-deliverySemaphore (a blocked sender, if any, takes the slot over)
-W5(e) == /\ wpc[e] = "w5"
-         /\ IF semq # <<>>
-            THEN /\ wpc' = [wpc EXCEPT ![e] = "w6", ![Head(semq)] = "w1r"]
+W5(e) == /\ wpc[e] \in {"w5", "w5p"}
+         /\ LET nx == IF wpc[e] = "w5p" THEN "w6p" ELSE "w6" IN
+            IF semq # <<>>
+            THEN /\ wpc' = [wpc EXCEPT ![e] = nx, ![Head(semq)] = "w1r"]
                  /\ semq' = Tail(semq) /\ UNCHANGED sem
-            ELSE /\ wpc' = [wpc EXCEPT ![e] = "w6"] /\ sem' = sem - 1 /\ UNCHANGED semq
+            ELSE /\ wpc' = [wpc EXCEPT ![e] = nx] /\ sem' = sem - 1 /\ UNCHANGED semq
          /\ UNCHANGED <<cfg, now, wheelV, apc, cpc, tickV, wdue, wpanic, wg, spool, broken, ended, obs>>
 
 \* deferred: deliveryWg.Done(); recover() -> discardBroken
-W6(e) == /\ wpc[e] = "w6" /\ wpc' = [wpc EXCEPT ![e] = "done"]
+W6(e) == /\ wpc[e] \in {"w6", "w6p"} /\ wpc' = [wpc EXCEPT ![e] = "done"]
          /\ wg' = wg - 1
          /\ cpc' = IF wg = 1 /\ cpc = "c5b" THEN "c5r" ELSE cpc
-         /\ IF wpanic[e]
+         /\ IF wpanic[e] \/ wpc[e] = "w6p"
             THEN broken' = broken \cup {MsgOf(e)} /\ spool' = spool \ {MsgOf(e)}
             ELSE UNCHANGED <<broken, spool>>
          /\ UNCHANGED <<cfg, now, wheelV, apc, tickV, wdue, wpanic, sem, semq, ended, obs>>
@@ -305,7 +312,7 @@ ContPending == (\E p \in Adders : apc[p] \in {"a3r", "a3p"}) \/ cpc = "c5r"
 EnAdder(p) == apc[p] \in {"ab", "a0", "a1", "a2", "a3"}
 EnCloser == cpc \in {"c0", "c1", "c2", "c3", "c4", "c5"}
 EnTick == tpc \in {"t0", "t1", "t2", "t3", "t4", "t5", "ts"}
-EnWorker(e) == wpc[e] \in {"w0", "w1", "wa1", "wa2", "wa3", "w5", "w6"}
+EnWorker(e) == wpc[e] \in {"w0", "w1", "wa1", "wa2", "wa3", "w5", "w5p", "w6", "w6p"}
 ProcEnabled == (\E p \in Adders : EnAdder(p)) \/ EnCloser \/ EnTick \/ (\E e \in Entries : EnWorker(e))
 
 \* the clock runs freely up to MaxTime; beyond it only to let a pending timer fire
@@ -401,7 +408,7 @@ TypeOK == /\ sem \in 0..cfg.par /\ wg \in 0..Cardinality(Entries)
           /\ \A s \in slots : s.e \in Entries
 OnceEach == \A e \in DOMAIN obs.disp : obs.disp[e] <= 1
 NoPanic == "Crash" \notin obs.viol /\ \A e \in Entries : ~wpanic[e]
-NoBrokenMark == broken = {}
+NoBrokenMark == broken \subseteq cfg.panic
 \* liveness under weak fairness
 Terminates == <>ended
 CloseTerminates == cfg.close => <>(cpc = "done")
